@@ -28,6 +28,7 @@ UNITS = {
     "u28_valuemeta": {"verus": "specs/u28_valuemeta.vt.rs"},
     "u29_hexane_prefix": {"verus": "specs/u29_hexane_prefix.vt.rs"},
     "u30_legacy_rle": {"verus": "specs/u30_legacy_rle.vt.rs"},
+    "u31_hexane_bool": {"verus": "specs/u31_hexane_bool.vt.rs"},
 }
 CHUNK = "rust/automerge/src/storage/chunk.rs"
 EXID = "rust/automerge/src/exid.rs"
@@ -322,7 +323,7 @@ PROPERTIES.update({
     },
     "C35": {
         "level": "proof",
-        "verus": [("u06v_hexane_str", "*"), ("u29_hexane_prefix", "*")],
+        "verus": [("u06v_hexane_str", "*"), ("u29_hexane_prefix", "*"), ("u31_hexane_bool", "*")],
         "kani": ["u06_codec_reads_agree", "u06_leb_unsigned_roundtrip", "u06_leb_signed_roundtrip", "u06_int_unpack_total", "u06_narrow_unpack_total", "u06_string_unpack_q", "u06_string_unpack_t",
                  "u06_string_unpack_huge_len", "u06_rle_segment_total_u64", "u06_rle_segment_total_i64", "u06_rle_segment_utf8"],
         "not_under_contract": ["Column::load / load_with / save / save_to", "slabs, B-tree index, splice, RLE loader (rle/load.rs), bool and delta encodings, encoder.rs", "value pack() into Vec"],
